@@ -773,7 +773,7 @@ func (g *gen) initCode(parent *frame, noEmpty, jumpy bool) []byte {
 		g.excl[sigS16Size] = true
 		kind = 0
 	}
-	if g.i(0, 3, "cself") == 0 {
+	if g.i(0, 3, "cself") == 3 {
 		// the account under construction looks at itself
 		g.inspectOnce(f, target{kind: "self", op: 0x30, vict: -1})
 	}
@@ -785,7 +785,7 @@ func (g *gen) initCode(parent *frame, noEmpty, jumpy bool) []byte {
 		if g.i(0, 2, "ctor") == 0 {
 			g.block(f, 1, 1)
 		}
-		if g.i(0, 3, "chelper") == 0 && f.nest < 2 {
+		if g.i(0, 3, "chelper") == 3 && f.nest < 2 {
 			if g.avoidNonce {
 				g.excl[sigS16Nonce] = true
 			} else {
@@ -885,7 +885,7 @@ func (g *gen) emitCreate(f *frame, c2, jumpy bool) {
 }
 
 func (g *gen) createStmt(f *frame) {
-	g.emitCreate(f, g.i(0, 2, "c2") == 0, g.i(0, 2, "cjumpy") == 0)
+	g.emitCreate(f, g.i(0, 2, "c2") == 0, g.i(0, 2, "cjumpy") == 2)
 	switch g.i(0, 3, "cc") {
 	case 0:
 		g.store(f)
@@ -955,7 +955,7 @@ func (g *gen) contractCode(idx int) []byte {
 	if idx < g.n-1 && g.i(0, 2, "forcecall") > 0 {
 		g.callStmt(f) // most contracts that can call forward do
 	}
-	if !f.pure && g.i(0, []int{4, 11}[min(idx, 1)], "factory") == 0 {
+	if fm := []int{4, 11}[min(idx, 1)]; !f.pure && g.i(0, fm, "factory") == fm {
 		g.factoryStmt(f)
 	}
 	g.block(f, n-pre, 2)
@@ -1016,7 +1016,7 @@ func genCase(leg string) func(t *rapid.T) EVMCase {
 			c.To = contractAddr(0)
 		case mk < 18:
 			f := &frame{entry: true, minT: 1} // a creation transaction never calls contract 0 (generated as entry code)
-			c.Data = g.initCode(f, false, g.i(0, 1, "txjumpy") == 0)
+			c.Data = g.initCode(f, false, g.i(0, 1, "txjumpy") == 1)
 		case mk == 18:
 			c.To = [][]byte{eoaAddr, missingAddr, {0, 0, 0, 0, 0, 0, 0, 0, 0, 0, 0, 0, 0, 0, 0, 0, 0, 0, 0, 2}, {0, 0, 0, 0, 0, 0, 0, 0, 0, 0, 0, 0, 0, 0, 0, 0, 0, 0, 0, 4}}[g.i(0, 3, "to")]
 		default:
@@ -1066,7 +1066,7 @@ func genCase(leg string) func(t *rapid.T) EVMCase {
 		c.Value = big.NewInt([]int64{0, 0, 0, 1, 1000}[g.i(0, 4, "value")]).Bytes()
 		c.Number = []uint64{5, 1, 2, 255, 256, 257, 300, 1000, 65536, 1000000}[g.i(0, 9, "number")]
 		c.Time = uint64(1500000000 + g.i(0, 1000, "time"))
-		if g.i(0, 5, "again") == 0 {
+		if g.i(0, 5, "again") == 5 {
 			// the same message once more, as a second transaction over the state the first one left
 			// (contracts it created or destroyed, accounts it touched, counters it advanced)
 			c.Again = 1 + g.i(0, 4, "again2")/4
